@@ -76,6 +76,9 @@ def _classify(ctx, mode, env, runs, dist, distinct, samples):
             dist["features"][name] = dist["features"].get(name, 0) + 1
         ncyc = len(re.findall(r" ev cycle ", body))
         dist["cycles"] += ncyc
+        # `race` lines: the plain flags _established / _ready are vrt_payload (scheduling points); two threads storing the
+        # same value to _established without ordering is what DESIGN calls the benign race — counted, not judged
+        dist["plain_flag_race_lines"] += len(r["races"])
         nthreads = len(set(l.split()[0] for l in r["lines"] if l[:1].isdigit()))
         dist["threads"][str(nthreads)] = dist["threads"].get(str(nthreads), 0) + 1
         if mode != "dep":
@@ -121,7 +124,7 @@ def run(ctx):
         return
     if drv is None:
         return
-    dist = {"modes": {}, "verdicts": {}, "features": {}, "threads": {}, "vertices": {}, "cycles": 0, "invokes": 0,
+    dist = {"modes": {}, "verdicts": {}, "features": {}, "threads": {}, "vertices": {}, "cycles": 0, "invokes": 0, "plain_flag_race_lines": 0,
             "replay_ok": 0, "replay_diverge": 0, "oracle": 0, "max_trace": 0}
     distinct = set()
     samples = []
@@ -149,7 +152,8 @@ def run(ctx):
     ctx.cov["traces_validated_against_impl"] = dist["replay_ok"]
     ctx.cov["rule"] = ("one case = one seeded graph + plan (dep: one dependency with/without condition, on/unless, condition true/false/empty, each of "
                        "C/T absent / before the run / concurrent; graph, pool: 3-12 vertices, 0-6 dependencies per vertex, 45% conditional, 25% essential, "
-                       "20% asynchronous processors, presets from the main or another thread, 1-3 targets, pool 1-4 workers) run for 1-3 run/reset cycles "
+                       "20% asynchronous processors, 60% std::string payloads (kept across reset), presets from the main or another thread changing from "
+                       "cycle to cycle, 1-3 targets, pool 1-4 workers) run for 1-4 run/reset cycles on one instance, plain flags _established/_ready as scheduling points, "
                        "under one seeded schedule (random with 5 stickiness levels, or PCT) with spurious weak-CAS failures 1/8; non-trivial = at least two "
                        "threads took part or a dependency was decremented before its activation; distinct by trace hash")
     ctx.cov["samples"] = samples or [["<no sample>"]]
